@@ -318,9 +318,12 @@ class Lexer(ITokenizer):
 			while index - 1 - escapes >= end and source[index - 1 - escapes] == '\\':
 				escapes += 1
 
-			end = index + len(pair['close'])
 			if escapes % 2 == 0:
+				end = index + len(pair['close'])
 				break
+
+			# XXX エスケープされているのは先頭の1文字のみ。終端が複数文字(3連クォート)の場合は次の文字から再検索
+			end = index + 1
 
 		value = source[begin:end]
 		token_type = TokenTypes.Regexp if value[0] == '/' else TokenTypes.String
